@@ -50,7 +50,7 @@ Centre(im) == <<Norm(im.shape[1],2), Norm(im.shape[2],2)>>           \* shape/2 
 AboutCentreS(im, T, retain, mode) ==
    LET c == Centre(im)
        toO == Tr2(RNeg(c[1]), RNeg(c[2])) IN
-   IF retain THEN [shape |-> im.shape, S |-> Inv(MMul(Tr2(c[1],c[2]), MMul(T, toO))), exact |-> FALSE]
+   IF retain THEN [shape |-> im.shape, S |-> Inv(MMul(Tr2(c[1],c[2]), MMul(T, toO))), fragile |-> FALSE]
    ELSE LET tr == MMul(T, toO)
             cs == {ApplyH(tr, <<R(i),R(j)>>) : i \in {0, im.shape[1]-1}, j \in {0, im.shape[2]-1}}
             mn(k) == CHOOSE v \in {p[k] : p \in cs} : \A w \in {p[k] : p \in cs} : RLe(v, w)
@@ -58,7 +58,8 @@ AboutCentreS(im, T, retain, mode) ==
             fwd == MMul(Tr2(RNeg(mn(1)), RNeg(mn(2))), tr)
             ext(k) == RAdd(RSub(mx(k), mn(k)), O1)
         IN [shape |-> <<RoundMode(ext(1), mode), RoundMode(ext(2), mode)>>, S |-> Inv(fwd),
-            exact |-> IsInt(ext(1)) /\ IsInt(ext(2))]
+            \* an extent that is EXACTLY integral (half-integral) is decided by float noise under ceil / floor (round): not judged
+            fragile |-> \E k \in {1, 2} : IF mode = "round" THEN IsHalf(ext(k)) ELSE IsInt(ext(k))]
 MirrorS(im, ax) == LET m == IF ax = 0 THEN M3(R(-1),Z0,R(im.shape[1]-1), Z0,O1,Z0) ELSE M3(O1,Z0,Z0, Z0,R(-1),R(im.shape[2]-1)) IN Inv(m)
 ZoomS(im, z) == LET c == Centre(im) IN MMul(Tr2(c[1],c[2]), MMul(Sc2(RInv(z),RInv(z)), Tr2(RNeg(c[1]),RNeg(c[2]))))
 Clip(v, hi) == IF v < 0 THEN 0 ELSE IF v > hi THEN hi ELSE v
@@ -90,7 +91,7 @@ Resize(sh) == Live /\ sh # img.shape
               /\ LET s == <<Norm(sh[1], img.shape[1]), Norm(sh[2], img.shape[2])>> IN
                  RescaleShape(img, s, "round") = sh /\ Do("resize", <<sh>>, sh, RescaleS(img, s), TRUE, FALSE)
 Rotate(r, retain, m) == Live /\ LET q == AboutCentreS(img, Rots[r], retain, m) IN
-                          /\ (IF q.exact THEN m = "round" ELSE TRUE)   \* exactly integral extents under ceil / floor are float-fragile
+                          /\ ~q.fragile
                           /\ q.shape[1] >= 1 /\ q.shape[2] >= 1
                           /\ Do("rotate", <<r, retain, m>>, q.shape, q.S, FALSE, TRUE)
 Mirror(ax) == Live /\ Do("mirror", <<ax>>, img.shape, MirrorS(img, ax), TRUE, FALSE)
